@@ -402,7 +402,7 @@ def _expected_branches():
     return out
 
 
-EXPECTED_BRANCHES = _expected_branches() + STRATA + [
+_EXPECTED_STATIC = _expected_branches() + STRATA + [
     'history/shared-grid/single-point-axis', 'history/shared-grid/regular',
     'history/shared-partition', 'history/shared-weighting/tensor',
     'history/shared-weighting/pspace', 'history/requery-after-other-space',
@@ -1714,6 +1714,275 @@ def run_large(ctx, case):
         ctx.hit(tag + 'dist')
     return problems
 
+
+# ---------------------------------------------------------------------------
+# VALIDATION stream: the constructors' weighting / exponent / dtype combinations.  Every
+# documented rejection must raise the documented error class; its nearest legal neighbour must
+# be accepted and then goes through the full oracle + model comparison (run_case), in
+# particular positivity for every accepted weighting.
+
+def _f(*a):
+    return 0.0
+
+
+def validation_table():
+    """(name, constructor thunk, expected exception class, description of the nearest legal
+    neighbour or None)."""
+    import odl
+    from odl.space.npy_tensors import NumpyTensorSpaceConstWeighting as CW
+    fr = np.array([[0.5, 1.0, 2.0], [1.0, 3.0, 0.25]])
+    r2 = odl.rn(2)
+    T = []
+    for p in (2, 1):
+        kw = {} if p == 2 else {'exponent': p}
+        T += [
+            ('tensor/int-space+fractional-float-array-weights/p{}'.format(p),
+             lambda kw=kw: odl.tensor_space((2, 3), dtype='int64', weighting=fr, **kw), ValueError,
+             ('T', (2, 3), 'int64', 'C', ('a', [[1, 1, 2], [1, 3, 1]]), p)),
+            ('tensor/float32-space+float64-array-weights/p{}'.format(p),
+             lambda kw=kw: odl.rn((2, 3), dtype='float32', weighting=fr, **kw), ValueError,
+             ('T', (2, 3), 'float32', 'C', ('a', fr.tolist()), p)),
+            ('tensor/real-space+complex-array-weights/p{}'.format(p),
+             lambda kw=kw: odl.rn(3, weighting=np.array([1j, 1, 2]), **kw), ValueError,
+             ('T', (3,), 'float64', 'C', ('a', [1.0, 1.0, 2.0]), p)),
+            ('discr/int-space+fractional-float-array-weights/p{}'.format(p),
+             lambda kw=kw: odl.uniform_discr(0, 1, 3, dtype='int64', weighting=[0.5, 1, 2],
+                                             nodes_on_bdry=True, **kw), ValueError,
+             ('U', [(0.0, 1.0, 3, 1, 1)], 'int64', 'C', ('a', [1, 1, 2]), p)),
+            ('discr/float32-space+float64-array-weights/p{}'.format(p),
+             lambda kw=kw: odl.uniform_discr(0, 1, 3, dtype='float32',
+                                             weighting=np.array([0.5, 1, 2]), **kw), ValueError,
+             ('U', [(0.0, 1.0, 3, 0, 0)], 'float32', 'C', ('a', [0.5, 1.0, 2.0]), p)),
+        ]
+    T += [
+        ('tensor/array-weights-shape-mismatch', lambda: odl.rn((2, 3), weighting=np.ones((3, 2))),
+         ValueError, ('T', (2, 3), 'float64', 'C', ('a', np.ones((2, 3)).tolist()), 2)),
+        ('tensor/const-weight-zero', lambda: odl.rn(3, weighting=0.0), ValueError,
+         ('T', (3,), 'float64', 'C', ('c', 0.25), 2)),
+        ('tensor/const-weight-negative', lambda: odl.cn(3, weighting=-1.0), ValueError,
+         ('T', (3,), 'complex128', 'C', ('c', 1.0), 2)),
+        ('tensor/const-weight-nan', lambda: odl.rn(3, weighting=float('nan')), ValueError, None),
+        ('tensor/const-weight-inf', lambda: odl.rn(3, weighting=float('inf')), ValueError, None),
+        ('tensor/object-array-weights',
+         lambda: odl.rn(3, weighting=np.array([1, None, 2], dtype=object)), ValueError, None),
+        ('tensor/weighting+inner', lambda: odl.rn(3, weighting=2.0, inner=_f), ValueError, None),
+        ('tensor/inner+norm', lambda: odl.rn(3, inner=_f, norm=_f), ValueError, None),
+        ('tensor/norm+dist', lambda: odl.rn(3, dist=_f, norm=_f), ValueError, None),
+        ('tensor/inner+exponent!=2', lambda: odl.rn(3, inner=_f, exponent=1), ValueError, None),
+        ('tensor/norm+exponent!=2', lambda: odl.rn(3, norm=_f, exponent=3), ValueError, None),
+        ('tensor/non-numeric-dtype+weighting',
+         lambda: odl.tensor_space(3, dtype='U1', weighting=2.0), ValueError, None),
+        ('tensor/weighting-object-exponent-conflict',
+         lambda: odl.rn(3, weighting=CW(2.0, exponent=1.0), exponent=3.0), ValueError,
+         ('T', (3,), 'float64', 'C', ('c', 2.0), 1)),
+        ('tensor/exponent-zero', lambda: odl.rn(3, exponent=0), ValueError,
+         ('T', (3,), 'float64', 'C', None, 0.5)),
+        ('tensor/exponent-negative', lambda: odl.rn(3, exponent=-1), ValueError, None),
+        ('tensor/unknown-keyword', lambda: odl.rn(3, foo=1), TypeError, None),
+        ('discr/const-weight-negative', lambda: odl.uniform_discr(0, 1, 3, weighting=-1.0),
+         ValueError, ('U', [(0.0, 1.0, 3, 0, 0)], 'float64', 'C', ('c', 0.5), 2)),
+        ('discr/array-weights-shape-mismatch',
+         lambda: odl.uniform_discr(0, 1, 3, weighting=[1.0, 2.0]), ValueError,
+         ('U', [(0.0, 1.0, 3, 0, 0)], 'float64', 'C', ('a', [1.0, 2.0, 0.5]), 2)),
+        ('discr/real-space+complex-array-weights',
+         lambda: odl.uniform_discr(0, 1, 3, weighting=np.array([1j, 1, 2])), ValueError,
+         ('U', [(0.0, 1.0, 3, 0, 0)], 'complex128', 'C', ('a', [1.0, 1.0, 2.0]), 2)),
+        ('pspace/weighting+inner', lambda: odl.ProductSpace(r2, r2, weighting=2.0, inner=_f),
+         ValueError, None),
+        ('pspace/inner+exponent!=2', lambda: odl.ProductSpace(r2, r2, inner=_f, exponent=1),
+         ValueError, None),
+        ('pspace/const-weight-zero', lambda: odl.ProductSpace(r2, r2, weighting=0.0), ValueError,
+         ('P', [('T', (2,), 'float64', 'C', None, 2)] * 2, ('c', 0.5), 2)),
+        ('pspace/const-weight-negative', lambda: odl.ProductSpace(r2, r2, weighting=-2.0),
+         ValueError, ('P', [('T', (2,), 'float64', 'C', None, 1)] * 2, ('c', 2.0), 1)),
+        ('pspace/array-weights-2d', lambda: odl.ProductSpace(r2, r2, weighting=[[1, 2], [3, 4]]),
+         ValueError, ('P', [('T', (2,), 'float64', 'C', None, 2)] * 2, ('a', [1.0, 2.0]), 2)),
+        ('pspace/object-array-weights',
+         lambda: odl.ProductSpace(r2, r2, weighting=np.array([1, None], dtype=object)),
+         ValueError, None),
+        ('pspace/mixed-fields', lambda: odl.ProductSpace(r2, odl.cn(2)), ValueError, None),
+        ('pspace/unknown-keyword', lambda: odl.ProductSpace(r2, r2, foo=1), TypeError, None),
+    ]
+    return T
+
+
+VALIDATION_NAMES = None
+
+
+def validation_names():
+    global VALIDATION_NAMES
+    if VALIDATION_NAMES is None:
+        VALIDATION_NAMES = [(t[0], t[3] is not None) for t in validation_table()]
+    return VALIDATION_NAMES
+
+
+def run_validation(ctx, lines, recs, collect=True):
+    allp = []
+    for k, (name, thunk, exc, neighbour) in enumerate(validation_table()):
+        rep = {'validation': name}
+        try:
+            sp = thunk()
+            got = 'accepted ({})'.format(type(sp).__name__)
+        except Exception as e:  # noqa
+            got = e
+        ctx.case(('validation', name), None)
+        if isinstance(got, str):
+            detail = 'documented rejection ({}) but the constructor {}'.format(exc.__name__, got)
+            # what the accepted space then does (positivity)
+            try:
+                one = sp.one()
+                detail += '; one().norm()={!r}'.format(one.norm())
+                x = sp.element(np.ones(sp.shape)) if hasattr(sp, 'shape') else one
+                detail += ' inner(1,1)={!r}'.format(x.inner(x))
+            except Exception as e:  # noqa
+                detail += '; then {}: {}'.format(type(e).__name__, str(e)[:60])
+            ctx.violation('validation: invalid combination accepted :: ' + name, detail[:400], rep)
+            allp.append((name, detail))
+        elif not isinstance(got, exc):
+            detail = 'expected {} got {}: {}'.format(exc.__name__, type(got).__name__, got)
+            ctx.violation('validation: wrong error class :: ' + name, detail[:300], rep)
+            allp.append((name, detail))
+        else:
+            ctx.hit('validation/reject/' + name)
+        if neighbour is not None:
+            pr = run_case(ctx, neighbour, 7919 * (k + 1), lines, recs, collect=collect,
+                          hist={'scenario': 'validation-neighbour/' + name, 'seed': 0})
+            if not any(w == 'space construction failed' for w, _ in pr):
+                ctx.hit('validation/accept/' + name)
+            allp += pr
+    return allp
+
+
+# ---------------------------------------------------------------------------
+# MAGNITUDE stream (oracle only, relative tolerance): vectors scaled by 2**k with k at both
+# ends of the dtype's exponent range, so that squares / p-th powers overflow or underflow while
+# the true norm 2**k * ||x|| is representable.  Checked: norm(s x) = |s| norm(x) (hence finite
+# and positive), dist(s x, s y) = |s| dist(x, y), inner(s x, y / s) = inner(x, y), on every
+# exponent class x weighting kind x size regime x {float32, float64, complex64, complex128}
+# for tensor spaces and on discretized and product spaces.
+
+def mag_descs(ctx):
+    out = []
+    for dt in ['float32', 'float64', 'complex64', 'complex128']:
+        for wk in ['none', 'const', 'array']:
+            for p in [2, 1, INF, 1.5, 3]:
+                for n in [5, 120]:
+                    wt = None if wk == 'none' else (('c', 2.0) if wk == 'const' else
+                                                    ('a', [[0.5, 1.0, 2.0, 4.0, 1.0][i % 5]
+                                                           for i in range(n)]))
+                    out.append(('tensor', wk, ('T', (n,), dt, 'C', wt, p)))
+    thr = threshold()
+    for dt in ['float32', 'float64']:
+        out.append(('tensor', 'none', ('T', (thr + 1,), dt, 'C', None, 2)))
+        out.append(('tensor', 'const', ('T', (thr + 1,), dt, 'C', ('c', 0.5), 2)))
+    for dt in ['float32', 'float64', 'complex128']:
+        for p in [2, 1, 3, INF]:
+            out.append(('discr', 'const', ('U', [(0.0, 2.0, 5, 1, 1)], dt, 'C', None, p)))
+    for wk, wt in [('none', None), ('const', ('c', 2.0)), ('array', ('a', [0.5, 2.0]))]:
+        for p in [2, 1, INF, 3]:
+            comps = [('T', (2,), 'float64', 'C', None, 2), ('T', (3,), 'float64', 'C', ('c', 2.0), 2)]
+            out.append(('pspace', wk, ('P', comps, wt, p)))
+    return out
+
+
+def elem_from_vals(d, space, vals):
+    if d[0] == 'P':
+        parts, pos = [], 0
+        for c, sp in zip(d[1], space.spaces):
+            n = flat_size(c)
+            parts.append(elem_from_vals(c, sp, vals[pos:pos + n]))
+            pos += n
+        return space.element(parts)
+    return space.element(np.asarray(vals).reshape(leaf_shape(d)).astype(d_dtype(d)))
+
+
+def mag_stratum(kind, wk, d):
+    dt = 'float64' if d[0] == 'P' else str(d_dtype(d))
+    return 'magnitude/{}/{}/p={}/{}'.format(kind, wk, pclass(d_p(d)), dt)
+
+
+def mag_strata():
+    return sorted({mag_stratum(k, w, d) for k, w, d in mag_descs(None)})
+
+
+def run_magnitude(ctx, only=None):
+    allp = []
+    for kind, wk, d in mag_descs(ctx):
+        dt = np.dtype('float64') if d[0] == 'P' else d_dtype(d)
+        single_ = dt in (np.dtype('float32'), np.dtype('complex64'))
+        K = 70 if single_ else 600
+        tol = 1e-5 if single_ else 1e-10
+        n = flat_size(d)
+        r = np.random.RandomState(n + int(d_p(d) == INF))
+        bx = r.choice([1.0, -2.0, 0.5, 3.0, -1.5, 0.25], size=n)
+        by = r.choice([1.0, 2.0, -0.5, 1.5, -3.0], size=n)
+        if np.issubdtype(dt, np.complexfloating):
+            bx = bx + 1j * r.choice([1.0, -0.5, 2.0], size=n)
+            by = by - 1j * r.choice([0.5, 1.0, -2.0], size=n)
+        o = outcome(lambda: build(d))
+        if o[0] != 'ok':
+            ctx.violation('magnitude: space construction failed :: ' + wire(d)[:80], str(o)[:200],
+                          {'magnitude': jsonable(d)})
+            continue
+        space = o[1]
+        if n > 2000:
+            # large arrays (exponent 2, no / constant weighting only): NumPy reference sums
+            c = 1.0 if d[4] is None else float(d[4][1])
+            rnx = math.sqrt(c * float(np.sum(np.abs(bx) ** 2)))
+            rnd = math.sqrt(c * float(np.sum(np.abs(bx - by) ** 2)))
+            z = c * complex(np.sum(bx * np.conj(by)))
+            rin = (z.real, z.imag)
+        else:
+            X, Y = bx.tolist(), by.tolist()
+            rnx, rnd = ref_norm(d, X), ref_norm(d, [u - v for u, v in zip(X, Y)])
+            rin = ref_inner(d, X, Y) if has_inner(d) else None
+        ctx.hit(mag_stratum(kind, wk, d))
+        for k in (K, -K):
+            if only is not None and only != (wire(d), k):
+                continue
+            s = 2.0 ** k
+            key = 'path={}/{}/p={}/{}/n={}/k={}'.format(kind, wk, pclass(d_p(d)), dt, n,
+                                                        '+' if k > 0 else '-')
+            rep = {'magnitude': jsonable(d), 'k': k}
+            ctx.case(('magnitude', kind, wk, pclass(d_p(d)), str(dt), k > 0), None)
+            try:
+                x, y = elem_from_vals(d, space, bx * s), elem_from_vals(d, space, by * s)
+                yi = elem_from_vals(d, space, by / s)
+            except Exception as e:  # noqa
+                ctx.violation('magnitude: element creation failed :: ' + key, str(e)[:200], rep)
+                continue
+            with np.errstate(all='ignore'):
+                checks = [('norm', outcome(lambda: x.norm()), math.ldexp(rnx, k)),
+                          ('dist', outcome(lambda: x.dist(y)), math.ldexp(rnd, k))]
+                if rin is not None:
+                    checks.append(('inner', outcome(lambda: x.inner(yi)),
+                                   complex(float(rin[0]), float(rin[1]))))
+            for nm, got, ref in checks:
+                bad = None
+                if got[0] != 'ok':
+                    bad = '{}(..) raised {}'.format(nm, got)
+                else:
+                    v = complex(got[1])
+                    if not (abs(v - ref) <= tol * abs(ref)):
+                        bad = ('{} of the vector scaled by 2**{} is {!r}; |s| * {}(x) = {!r} is '
+                               'representable (absolute homogeneity / positivity / finiteness)'
+                               .format(nm, k, got[1], nm, ref))
+                if bad:
+                    ctx.violation('magnitude: {} not homogeneous under scaling :: {}'.format(nm, key),
+                                  bad[:400], rep)
+                    allp.append((key, bad))
+    return allp
+
+
+def EXPECTED_BRANCHES(ctx):
+    out = list(_EXPECTED_STATIC)
+    for name, has_neighbour in validation_names():
+        out.append('validation/reject/' + name)
+        if has_neighbour:
+            out.append('validation/accept/' + name)
+    return out + mag_strata()
+
+
 # ---------------------------------------------------------------------------
 
 def threshold():
@@ -1737,6 +2006,8 @@ def run(ctx):
     for rep in range(1 if ctx.quick else 3):
         for case in large_cases(ctx):
             run_large(ctx, case)
+    run_validation(ctx, lines, recs)
+    run_magnitude(ctx)
     custom_cases(ctx)
     outs = core.run_driver('C02', lines)
     compare(ctx, recs, outs)
@@ -1748,6 +2019,8 @@ def search(ctx, broken):
     saved = ctx.tier
     ctx.tier = 'thorough'
     try:
+        run_validation(ctx, [], [], collect=False)
+        run_magnitude(ctx)
         for case in large_cases(ctx):
             run_large(ctx, case)
         for rep in range(4):
@@ -1769,6 +2042,16 @@ def replay(ctx, case):
         del ctx.violations[before:]
         bad = [v for v in new if v['replay'].get('custom') == case['custom']]
         return bad[0]['what'] if bad else None
+    if 'validation' in case:
+        before = len(ctx.violations)
+        pr = [q for q in run_validation(ctx, [], [], collect=False) if q[0] == case['validation']]
+        del ctx.violations[before:]
+        return '; '.join('{}: {}'.format(*q) for q in pr[:3]) if pr else None
+    if 'magnitude' in case and 'k' in case:
+        before = len(ctx.violations)
+        pr = run_magnitude(ctx, only=(wire(unjson(case['magnitude'])), case['k']))
+        del ctx.violations[before:]
+        return '; '.join('{}: {}'.format(*q) for q in pr[:3]) if pr else None
     if 'large' in case:
         c = list(case['large'])
         c[5] = INF if c[5] == 'inf' else c[5]
